@@ -31,8 +31,9 @@ VARIABLES l, st,
           viol,     \* "" or the name of the violated part of the property
           skip,     \* the rest of the case is not judged (abandoned / direct mode bookkeeping)
           sawT, sawB,                 \* direct mode
-          nst, minst, nab, minab      \* read durations (thousandths of an interval)
-ovars == <<l, st, pin, oks, lastv, viol, skip, sawT, sawB, nst, minst, nab, minab>>
+          nst, minst, nsf, minsf, nab, minab  \* number / fastest of the reads that returned TRUE, FALSE, aborted
+                                              \* (durations in thousandths of a polling interval)
+ovars == <<l, st, pin, oks, lastv, viol, skip, sawT, sawB, nst, minst, nsf, minsf, nab, minab>>
 
 MCWatch1 == [d \in Dets |-> 1]
 MCWatch2 == [d \in Dets |-> IF d = 1 THEN 1 ELSE 2]
@@ -43,20 +44,20 @@ Big == 1000000000
 
 OInit == /\ l = 1 /\ st = InitSt /\ pin = [d \in Dets |-> FALSE] /\ oks = [d \in Dets |-> FALSE]
          /\ lastv = [d \in Dets |-> "-"] /\ viol = "" /\ skip = TRUE /\ sawT = FALSE /\ sawB = FALSE
-         /\ nst = 0 /\ minst = Big /\ nab = 0 /\ minab = Big
+         /\ nst = 0 /\ minst = Big /\ nsf = 0 /\ minsf = Big /\ nab = 0 /\ minab = Big
 
 OCase == /\ Ev("case")
          /\ st' = InitSt /\ pin' = [d \in Dets |-> FALSE] /\ oks' = [d \in Dets |-> FALSE]
          /\ lastv' = [d \in Dets |-> "-"] /\ skip' = FALSE /\ sawT' = FALSE /\ sawB' = FALSE
-         /\ UNCHANGED <<viol, nst, minst, nab, minab>>
+         /\ UNCHANGED <<viol, nst, minst, nsf, minsf, nab, minab>>
 
 OSkip == /\ l <= Len(Trace) /\ skip /\ T.e # "case" /\ l' = l + 1
-         /\ UNCHANGED <<st, pin, oks, lastv, viol, skip, sawT, sawB, nst, minst, nab, minab>>
+         /\ UNCHANGED <<st, pin, oks, lastv, viol, skip, sawT, sawB, nst, minst, nsf, minsf, nab, minab>>
 
 OEnd == /\ ~skip /\ Ev("endcase") /\ skip' = TRUE
-        /\ UNCHANGED <<st, pin, oks, lastv, viol, sawT, sawB, nst, minst, nab, minab>>
+        /\ UNCHANGED <<st, pin, oks, lastv, viol, sawT, sawB, nst, minst, nsf, minsf, nab, minab>>
 
-Keep == UNCHANGED <<viol, skip, sawT, sawB, nst, minst, nab, minab>>
+Keep == UNCHANGED <<viol, skip, sawT, sawB, nst, minst, nsf, minsf, nab, minab>>
 
 PEnd(s, d) == IF pin[d] THEN Bk(s, s, d, IF oks[d] THEN "endok" ELSE "endfail") ELSE s
 PBegin(s, d) == Bk(s, s, d, "begin")
@@ -94,11 +95,13 @@ MustT(d) == FailCond(st, d) /\ st.fcnt[d] >= 1
 MustF(d) == OkCond(st, d) /\ st.acnt[d] >= 1
 
 Timing(v, pm) ==
-    IF v \in {"T", "F"}
-    THEN nst' = nst + 1 /\ minst' = Min(minst, pm) /\ UNCHANGED <<nab, minab>>
+    IF v = "T"
+    THEN nst' = nst + 1 /\ minst' = Min(minst, pm) /\ UNCHANGED <<nsf, minsf, nab, minab>>
+    ELSE IF v = "F"
+    THEN nsf' = nsf + 1 /\ minsf' = Min(minsf, pm) /\ UNCHANGED <<nst, minst, nab, minab>>
     ELSE IF v = "A"
-    THEN nab' = nab + 1 /\ minab' = Min(minab, pm) /\ UNCHANGED <<nst, minst>>
-    ELSE UNCHANGED <<nst, minst, nab, minab>>
+    THEN nab' = nab + 1 /\ minab' = Min(minab, pm) /\ UNCHANGED <<nst, minst, nsf, minsf>>
+    ELSE UNCHANGED <<nst, minst, nsf, minsf, nab, minab>>
 
 ORead == /\ ~skip /\ Ev("read")
          /\ LET d == T.d  v == T.v IN
@@ -129,7 +132,7 @@ ODRead == /\ ~skip /\ Ev("dread")
 \* monitor shutdown must not take the process (and the archetypes it runs) down
 OCloseRace == /\ ~skip /\ Ev("closerace")
               /\ viol' = IF viol # "" THEN viol ELSE IF T.crashed THEN "MonitorCrash" ELSE ""
-              /\ UNCHANGED <<st, pin, oks, lastv, skip, sawT, sawB, nst, minst, nab, minab>>
+              /\ UNCHANGED <<st, pin, oks, lastv, skip, sawT, sawB, nst, minst, nsf, minsf, nab, minab>>
 
 ONext == OCase \/ OSkip \/ OEnd \/ OEnv \/ ODet \/ ORead \/ ODRead \/ OCloseRace
 
@@ -140,8 +143,9 @@ ReadPure == viol # "ReadPure"
 ReadError == viol # "ReadError"
 MonitorCrash == viol # "MonitorCrash"
 \* "never delays a critical section by more than one polling interval": the fastest of many
-\* steady-state reads takes less than half an interval (so ReadValue does not sleep there), the
+\* reads that returned TRUE, and of many that returned FALSE, takes less than half an interval (so
+\* ReadValue does not sleep in the steady state), the
 \* fastest of many uninitialised reads less than two (load only ever makes a read slower)
-ReadSteadyFast == nst >= 60 => minst < 500
+ReadSteadyFast == (nst >= 40 => minst < 500) /\ (nsf >= 40 => minsf < 500)
 ReadAbortBounded == nab >= 25 => minab < 2000
 =============================================================================
